@@ -379,8 +379,9 @@ ROUND3 = {
            "every query object evaluated three times.",
     "C03": "Round 3: one attribute node used for its value in one query and as a condition in another (shared_mapping families; open "
            "finding C03-F34 attributed by signature).",
-    "C04": "Round 3: every fifth heap consists of falsy objects.",
-    "C05": "Round 3: every fifth heap consists of falsy objects.",
+    "C04": "Round 3: every fifth heap consists of falsy objects; classes X (alternatively mapped, its mapping renames the collection) and Y "
+           "(normally mapped subclass of X), reached through C.x before C.back.",
+    "C05": "Round 3: every fifth heap consists of falsy objects; classes X / Y with the tables VXMappingDAO / VYDAO.",
     "C07": "Round 3: text containers over a second database whose labels contain LIKE wildcards and case variants; a variable over an "
            "unmapped class must be rejected.",
     "C08": "Round 3: RuleNewVar.tla (a refinement whose condition introduces a variable of its own, 108 worlds), the rule evaluated before "
